@@ -107,16 +107,21 @@ def shrink_candidates(ops):
     for k in range(n - 1, -1, -1):
         add(progs, oracle, sched[:k] + sched[k + 1:])
     # 6. canonical payloads (poster*10 + position) so that equal failures shrink to equal terms
+    def inner(m):
+        return m["X"][0] if isinstance(m, dict) and "X" in m else m
     canon = []
     for i, p in enumerate(progs):
         q = []
-        for k, m in enumerate(p):
-            if "PUser" in m:
-                q.append({"PUser": [i * 10 + k + 1]})
+        for k, m0 in enumerate(p):
+            m = inner(m0)
+            if isinstance(m0, dict) and "XBatch" in m0:
+                q.append(m0)
+            elif "PUser" in m:
+                q.append({"X": [{"PUser": [i * 10 + k + 1]}]})
             elif isinstance(m["PSys"][0], dict):
-                q.append({"PSys": [{"SOther": [i * 10 + k + 1]}]})
+                q.append({"X": [{"PSys": [{"SOther": [i * 10 + k + 1]}]}]})
             else:
-                q.append(m)
+                q.append({"X": [m]})
         canon.append(q)
     add(canon, oracle, sched)
     return cands
